@@ -594,7 +594,8 @@ class InvGaussDist(Distribution):
         if weights is None:
             weights = np.ones_like(mu)
         gamma = weights / self.scale
-        return sp.stats.invgauss.logpdf(y, mu, scale=1.0 / gamma)
+        # scipy's invgauss(m, scale=s) has mean m * s and shape parameter s
+        return sp.stats.invgauss.logpdf(y, mu / gamma, scale=gamma)
 
     @divide_weights
     def V(self, mu):
